@@ -194,6 +194,8 @@ def run_check(pid: str, tier: str, base_seed: int, engine: Any, arg: Dict[str, A
         "components_real": components["real"],
         "components_stub": components["stub"],
     }
+    cov["fault_counts"] = {k.split(":", 1)[1]: v for k, v in stats.items() if k.startswith("fault:") or (k.startswith("solver:") and k != "solver:real")}
+    cov["simulated_time"] = "no clock in this engine: progress is counted in logical steps (reach_probes)"
     if extra_cov:
         cov.update(extra_cov(good))
     runner.write_evidence(pid, tier, base_seed, level, cov, wall, n_viol, assumptions)
